@@ -10,6 +10,9 @@ use std::{
 
 pub use cache_control::CacheControl;
 pub use export_sdl::SDLExportOptions;
+#[cfg(feature = "verif-hooks")]
+#[doc(hidden)]
+pub use export_sdl::verif_escape_string;
 use indexmap::{map::IndexMap, set::IndexSet};
 
 pub use crate::model::{__DirectiveLocation, location_traits};
